@@ -287,7 +287,7 @@ func (h *HttpServer) handleStreamInit(w http.ResponseWriter, r *http.Request) {
 		// The producer's first turn folds into this /init request, so the init
 		// request's custom metadata is what the pipe transports would have
 		// delivered on the first tick batch.
-		finished, err := h.runProduceLoop(ctx, writer, outputSchema, state.(ProducerState), info, stats, auth, transportMeta, callCtx.Cookies, callCtx.stickySink, requestMetadata(req))
+		finished, err := h.runProduceLoop(ctx, writer, outputSchema, state.(ProducerState), info, stats, auth, transportMeta, callCtx.Cookies, callCtx.stickySink, requestMetadata(req), &buf)
 		handlerErr = err
 		if err == nil && !finished {
 			// Batch limit reached — append continuation token
@@ -655,7 +655,7 @@ func (h *HttpServer) handleProducerContinuation(ctx context.Context, w http.Resp
 	// framework's own transport keys are stripped first — the pipe transports
 	// never put them on a tick, and the stream-state value is a sealed cursor
 	// token that must not surface to user code.
-	finished, err := h.runProduceLoop(ctx, writer, schema, state, info, stats, auth, transportMeta, cookies, sink, stripFrameworkTickMetadata(requestMeta))
+	finished, err := h.runProduceLoop(ctx, writer, schema, state, info, stats, auth, transportMeta, cookies, sink, stripFrameworkTickMetadata(requestMeta), &buf)
 	if err == nil && !finished {
 		// Batch limit reached — append continuation token
 		token, tokenErr := h.packCursorToken(callID, state, auth)
@@ -981,9 +981,12 @@ func stripFrameworkTickMetadata(meta arrow.Metadata) arrow.Metadata {
 }
 
 // runProduceLoop runs the producer state machine until completion or the batch
-// limit is reached. Returns (true, nil) when the producer has finished,
-// (false, nil) when the batch limit was reached (caller should emit a
-// continuation token), or (false, err) on error.
+// limit or the soft wire cap is reached. Returns (true, nil) when the producer
+// has finished, (false, nil) when the batch limit or max_response_bytes was
+// reached (caller should emit a continuation token), or (false, err) on error.
+//
+// respBuf, when given, is the buffer the response body is being written to;
+// its length is what max_response_bytes is compared with after each cycle.
 //
 // firstTickMeta is surfaced as CallContext.InputMetadata on the FIRST Produce
 // call of this HTTP turn only. On the pipe transports every producer turn is a
@@ -994,7 +997,7 @@ func stripFrameworkTickMetadata(meta arrow.Metadata) arrow.Metadata {
 // batches, the later ticks in that turn legitimately see empty metadata — the
 // client has no opportunity to update mid-turn.
 func (h *HttpServer) runProduceLoop(ctx context.Context, writer *ipc.Writer, schema *arrow.Schema,
-	state ProducerState, info *methodInfo, stats *CallStatistics, auth *AuthContext, transportMeta map[string]string, cookies map[string]string, sink *stickySink, firstTickMeta arrow.Metadata) (bool, error) {
+	state ProducerState, info *methodInfo, stats *CallStatistics, auth *AuthContext, transportMeta map[string]string, cookies map[string]string, sink *stickySink, firstTickMeta arrow.Metadata, respBuf ...*bytes.Buffer) (bool, error) {
 
 	dataBatches := 0
 	firstTick := true
@@ -1130,6 +1133,14 @@ func (h *HttpServer) runProduceLoop(ctx context.Context, writer *ipc.Writer, sch
 
 		if out.Finished() {
 			return true, nil
+		}
+
+		// Soft wire cap: once the response body has reached max_response_bytes,
+		// end this turn so the caller appends a continuation token. The
+		// response overshoots by at most the batches of the cycle that crossed
+		// the cap; the rest of the stream arrives on later turns.
+		if h.maxResponseBytes > 0 && len(respBuf) > 0 && int64(respBuf[0].Len()) >= h.maxResponseBytes {
+			return false, nil
 		}
 
 		// Check batch limit
